@@ -356,6 +356,18 @@ def run(ctx):
         meta.append({"hello": repr(hc), "decoded": repr(dec)})
         ctx.case(("hello", hc))
         ctx.count("hello")
+        # oracle: the byte layout a real module uses - one byte per character of the name, between the tags
+        if hc[0] == "HResponse" and b != b"<HELLO>" + hc[1] + b"|" + hc[2] + b"</HELLO>":
+            ctx.fail("hello:layout", "hello reply for name %r is built as %r (expected <HELLO>identifier|name</HELLO> with one byte per character)" % (hc[2], b),
+                     {"identifier": list(hc[1]), "name": list(hc[2]), "built": list(b)})
+        # ... and what such a module sends decodes to that identifier / name
+        if hc[0] == "HResponse" and b"|" not in hc[1] and not (hc[1] + b"|" + hc[2]).startswith((b"IOS", b"AND")) and (hc[1] + b"|" + hc[2]) != b"1":
+            try:
+                dec_dev = hello_decode(b"<HELLO>" + hc[1] + b"|" + hc[2] + b"</HELLO>")
+            except Exception as e:  # noqa
+                dec_dev = "raises %s" % type(e).__name__
+            if dec_dev != hc:
+                ctx.fail("hello:device_bytes", "the datagram a module sends for name %r decodes to %r" % (hc[2], dec_dev), {"identifier": list(hc[1]), "name": list(hc[2]), "decoded": repr(dec_dev)})
         # oracle: a response decodes to what it was built from (identifier without '|', content not reserved)
         if hc[0] == "HResponse" and b"|" not in hc[1] and not (hc[1] + b"|" + hc[2]).startswith((b"IOS", b"AND")) and (hc[1] + b"|" + hc[2]) != b"1":
             if dec != hc:
